@@ -22,6 +22,7 @@ from glom.core import TType
 
 from .. import fuzzrun
 from ..runner import Sub, Mismatch
+from .. import runner as runner_mod
 from .. import targets as tg
 from .. import texpr as tx
 
@@ -126,7 +127,7 @@ def gen_steps(draw, n, root, depth=2):
 
 def gen_t(draw):
     root = draw(st.sampled_from(['T', 'T', 'T', 'S', 'A']))
-    n = draw(st.integers(0, 6))
+    n = draw(st.integers(0, 8 if runner_mod.thorough() else 6))
     return {'kind': 't', 'root': root, 'steps': gen_steps(draw, n, root)}
 
 
